@@ -504,6 +504,59 @@ fn run_m(ctx: &Ctx, rep: &mut Report, ch: u8, a: Alphabet, label: &str, props: &
     r
 }
 
+/// short cycles of note messages (and polls) repeated more often than a 16-bit counter holds, judged by the model
+fn long_runs(ctx: &Ctx, rep: &mut Report, props: &[&'static str], with_polls: bool) {
+    let mut cycles: Vec<Vec<MOp>> = vec![
+        vec![MOp::On(60, 100), MOp::Off(60)],
+        vec![MOp::On(60, 100), MOp::On(64, 90), MOp::Off(60), MOp::OffV0(64)],
+        vec![MOp::On(60, 100), MOp::On(60, 101), MOp::AllOff],
+        vec![MOp::On(72, 1), MOp::Prio(1), MOp::On(48, 127), MOp::Prio(2), MOp::Off(72), MOp::Prio(0), MOp::Off(48)],
+    ];
+    if with_polls {
+        cycles = vec![
+            vec![MOp::On(60, 100), MOp::PollR, MOp::Off(60), MOp::PollF],
+            vec![MOp::On(60, 100), MOp::Off(60), MOp::PollR, MOp::PollF],
+            vec![MOp::Retrig(true), MOp::On(60, 100), MOp::On(64, 90), MOp::PollR, MOp::AllOff, MOp::PollF, MOp::PollR],
+            vec![MOp::On(60, 100), MOp::PollR, MOp::PollR, MOp::On(61, 100), MOp::PollR, MOp::Off(60), MOp::PollF, MOp::Off(61), MOp::PollF, MOp::PollF],
+        ];
+    }
+    let cr = &cycles;
+    let pv: Vec<&'static str> = props.to_vec();
+    let pr = &pv;
+    par_ranges(ctx, rep, cycles.len() as u64, cycles.len() as u64, |_, lo, hi, lc| {
+        for j in lo..hi {
+            let mut m = MidiM::new(4, Alphabet { notes: vec![], vels: vec![], k: 32, modes: true, polls: true, ccs: vec![], bends: vec![], foreign: false, edge_note: None });
+            let cyc = &cr[j as usize];
+            'run: for n in 0..66_000u64 {
+                for op in cyc {
+                    let mut out = StepOut::new();
+                    let r = std::panic::catch_unwind(std::panic::AssertUnwindSafe(|| m.apply(op, &mut out)));
+                    lc.count("long_run_operations", 1);
+                    let ops_done = || -> Vec<String> {
+                        let mut v = Vec::new();
+                        for _ in 0..=n {
+                            v.extend(cyc.iter().map(MidiM::op_str));
+                        }
+                        v
+                    };
+                    if let Err(e) = r {
+                        for p in pr.iter() {
+                            lc.violation(Violation { prop: p, class: "panic".into(), detail: format!("the real code panicked: {}", panic_msg(&e)), machine: "midi", config: json!({"channel": 4}), ops: ops_done() });
+                        }
+                        break 'run;
+                    }
+                    for f in out.flags {
+                        if pr.contains(&f.prop) {
+                            lc.violation(Violation { prop: f.prop, class: format!("{}-in-a-long-run", f.class), detail: format!("{} (cycle {} of a repeated sequence)", f.detail, n + 1), machine: "midi", config: json!({"channel": 4}), ops: ops_done() });
+                            break 'run;
+                        }
+                    }
+                }
+            }
+        }
+    });
+}
+
 // ------------------------------------------------------------------ C04
 
 pub fn c04(ctx: &Ctx) -> Report {
@@ -574,6 +627,7 @@ pub fn c04(ctx: &Ctx) -> Report {
         rep.traces += n;
         rep.subruns.push(json!({"engine": "E2-sweep", "what": "all 128 x 128 note-number pairs x 4 third notes x 6 mode combinations, 8-message script, velocities cycling through 1..127, channel cycling through 0..15", "messages": n}));
     }
+    long_runs(ctx, &mut rep, p, false);
     // complement without state matching: every operation sequence up to a depth (immune to an incomplete state key)
     enumerate_sequences(&MidiM::new(0, Alphabet { notes: vec![5, 64], vels: vec![100], ..main_alphabet(4) }), if ctx.tier.is_thorough() { 6 } else { 5 }, ctx, &mut rep, p, "all message sequences, no state matching");
     if ctx.tier.is_thorough() {
@@ -619,6 +673,7 @@ pub fn c05(ctx: &Ctx) -> Report {
         let a2 = Alphabet { modes: true, ..polls(3) };
         explore(MidiM::new(0, a2).observed_edges(), &ExploreCfg { max_depth: None, state_cap: 30_000_000, threads: ctx.threads, label: "edges relative to the observed gate, main alphabet K=3 with mode switches".into() }, &mut rep, p);
     }
+    long_runs(ctx, &mut rep, p, true);
     enumerate_sequences(&MidiM::new(0, Alphabet { notes: vec![5, 64], vels: vec![100], modes: false, foreign: false, ..polls(4) }), if ctx.tier.is_thorough() { 7 } else { 6 }, ctx, &mut rep, p, "all message / poll sequences, no state matching");
     rep.nontrivial = rep.counters.get("rising_polls_expected_true").copied().unwrap_or(0) + rep.counters.get("falling_polls_expected_true").copied().unwrap_or(0);
     for k in ["rising_polls_expected_true", "falling_polls_expected_true", "gate_dropped_by_all_notes_off", "gate_dropped_by_note_off", "note_off_with_gate_low", "all_notes_off_with_pending_falling_edge"] {
@@ -986,7 +1041,7 @@ pub fn c06(ctx: &Ctx) -> Report {
         let mut long_jobs: Vec<(u8, usize, usize, usize)> = Vec::new(); // channel, context, filler, length
         for ch in if thorough { vec![0u8, 7, 15] } else { vec![0u8] } {
             for ctxi in 0..5 {
-                for fill in 0..6 {
+                for fill in 0..8 {
                     for &l in &lens {
                         long_jobs.push((ch, ctxi, fill, l));
                     }
@@ -1031,11 +1086,25 @@ pub fn c06(ctx: &Ctx) -> Report {
                             s.extend([0x07, 0x33]);
                         }
                     }
-                    _ => {
+                    5 => {
                         // pitch bends with a zero LSB over and over
                         s.push(pb);
                         for i in 0..l {
                             s.extend([0x00, 0x41 + (i % 8) as u8]);
+                        }
+                    }
+                    6 => {
+                        // the same key struck and released over and over (running status, velocity-0 note-off)
+                        s.push(on);
+                        for _ in 0..l {
+                            s.extend([0x45, 0x50, 0x45, 0x00]);
+                        }
+                    }
+                    _ => {
+                        // a second key trilled while the first one stays down
+                        s.extend([on, 0x30, 0x40]);
+                        for _ in 0..l {
+                            s.extend([0x90 | ch, 0x47, 0x51, 0x80 | ch, 0x47, 0x00]);
                         }
                     }
                 }
